@@ -6,6 +6,7 @@ Nothing here imports mako or the reference interpreter.
 IR (JSON-able)
     program = {"defs": [def...], "body": [stmt...], "cfg": cfg_id, "ctx": {name: value}}
     def     = {"name", "sig", "buffered": bool, "filters": [names], "deco": bool, "defs": [nested def...], "body": [stmt...]}
+              optional "bspell": the text of buffered="..." (its truth value is "buffered"), "cspell": text of cached="..."
     stmt    = ["text", s]
             | ["expr", python_source]                       ${...}
             | ["call", form, name, args, content]           args: python source of the argument list, or for the
@@ -19,7 +20,7 @@ IR (JSON-able)
 
 call forms
     bare   ${f(A)}            self  ${self.f(A)}        local ${local.f(A)}
-    cap    ${capture(f, A)}   cat   ${"<" + f(A) + ">"}
+    cap    ${capture(f, A)}   cat   ${"<" + f(A) + ">"}   stmt <% f(A) %>  (products only)
     tcall  <%call expr="f(A)">        tcallself <%call expr="self.f(A)">
     tself  <%self:f k="v" ...>        tlocal    <%local:f k="v" ...>
 """
@@ -83,6 +84,8 @@ def p_stmt(s):
             return "${capture(%s%s)}" % (name, ", " + args if args else "")
         if form == "cat":
             return '${"<" + %s(%s) + ">"}' % (name, args)
+        if form == "stmt":
+            return "<%% %s(%s) %%>" % (name, args)  # statement call: the return value is dropped
         bargs = ' args="%s"' % content["args"] if content["args"] else ""
         if form in ("tcall", "tcallself"):
             assert '"' not in args
@@ -99,8 +102,12 @@ def p_block(stmts):
 
 def p_def(d):
     attrs = ' name="%s(%s)"' % (d["name"], d["sig"])
-    if d["buffered"]:
+    if d.get("bspell") is not None:
+        attrs += ' buffered="%s"' % d["bspell"]  # explicit spelling; d["buffered"] is its truth value
+    elif d["buffered"]:
         attrs += ' buffered="True"'
+    if d.get("cspell") is not None:
+        attrs += ' cached="%s"' % d["cspell"]  # only false spellings are generated (caching itself is C17)
     if d["filters"]:
         attrs += ' filter="%s"' % ",".join(d["filters"])
     if d["deco"]:
